@@ -224,13 +224,18 @@ func cmdCheck(argv []string) int {
 	var solverTime, maxTime float64
 	kinds := map[string]int{}
 	covers := map[string]int{}
+	retCov := map[string][]*Obligation{}
 	for _, o := range allObls {
 		if o.Kind == "cover" {
 			// expectation inverted: unsat = vacuous
 			covers[o.Status]++
-			if o.Status == "unsat" {
-				o.Output = "VACUOUS: assumptions at this point are contradictory\n" + o.Output
-				failed = append(failed, o)
+			if strings.HasSuffix(o.Name, ":cover:entry") {
+				if o.Status == "unsat" {
+					o.Output = "VACUOUS: assumptions at function entry are contradictory\n" + o.Output
+					failed = append(failed, o)
+				}
+			} else {
+				retCov[o.Func] = append(retCov[o.Func], o)
 			}
 			continue
 		}
@@ -263,6 +268,19 @@ func cmdCheck(argv []string) int {
 			failed = append(failed, o)
 		}
 	}
+	// a function none of whose return points is reachable under its accumulated assumptions is vacuously verified
+	for _, os := range retCov {
+		all := true
+		for _, o := range os {
+			if o.Status != "unsat" {
+				all = false
+			}
+		}
+		if all && len(os) > 0 {
+			os[0].Output = "VACUOUS: no return point of this function is reachable under the accumulated assumptions\n" + os[0].Output
+			failed = append(failed, os[0])
+		}
+	}
 	// report
 	exit := 0
 	var violations []map[string]string
@@ -277,7 +295,36 @@ func cmdCheck(argv []string) int {
 		exit = 1
 	}
 	sort.Slice(failed, func(i, j int) bool { return failed[i].Name < failed[j].Name })
-	for _, o := range failed {
+	// replay (in parallel, at most maxReplays) the counterexamples of failed obligations that are not known findings
+	type replayRes struct {
+		text string
+		ok   bool
+		done bool
+	}
+	replays := make([]replayRes, len(failed))
+	{
+		const maxReplays = 8
+		var rwg sync.WaitGroup
+		rsem := make(chan struct{}, 4)
+		n := 0
+		for i, o := range failed {
+			if o.Status != "sat" || o.Kind == "cover" || matchKnown(known, prop, o.Key()) != nil || n >= maxReplays {
+				continue
+			}
+			n++
+			rwg.Add(1)
+			rsem <- struct{}{}
+			go func(i int, o *Obligation) {
+				defer rwg.Done()
+				defer func() { <-rsem }()
+				sub, _ := os.MkdirTemp(scratch, "replay-")
+				t, ok := tryReplay(o, *repo, sub)
+				replays[i] = replayRes{t, ok, true}
+			}(i, o)
+		}
+		rwg.Wait()
+	}
+	for i, o := range failed {
 		key := o.Key()
 		if kf := matchKnown(known, prop, key); kf != nil {
 			fmt.Printf("KNOWN-FINDING: property=%s %s (%s)\n", prop, kf.What, key)
@@ -286,12 +333,13 @@ func cmdCheck(argv []string) int {
 		}
 		body := fmt.Sprintf("obligation: %s\nkey: %s\nkind: %s\nfunction: %s\nsource: %s\nclause/reason: %s\nsolver verdict: %s\n\n%s\n", o.Name, key, o.Kind, o.Func, o.Pos, o.Src, o.Status, o.Output)
 		suffix := " no-failing-input-found"
-		if o.Status == "sat" {
-			rep, ok := tryReplay(o, *repo, scratch)
-			body += "\n--- replay ---\n" + rep
-			if ok {
+		if replays[i].done {
+			body += "\n--- replay ---\n" + replays[i].text
+			if replays[i].ok {
 				suffix = ""
 			}
+		} else if o.Status == "sat" {
+			body += "\n--- replay ---\nnot replayed (replay budget of this run exhausted); model:\n" + firstLines(o.Model, 40)
 		}
 		rp := writeReplay(*verifDir, prop, o.Name, body)
 		fmt.Printf("VIOLATION property=%s replay=%s obligation=%q verdict=%s%s\n", prop, rp, o.Name, o.Status, suffix)
@@ -425,7 +473,7 @@ func (c *FnCtx) coverObligations() []*Obligation {
 	ts := c.eng.ts
 	fname := c.top.RelString(c.top.Pkg.Pkg)
 	o := &Obligation{Name: fname + ":cover:entry", Kind: "cover", Func: fname, Goal: ts.Bool(false), NFacts: c.entryFacts, Ctx: c, Src: "requires ∧ package invariant satisfiable"}
-	return []*Obligation{o}
+	return append([]*Obligation{o}, c.retCovers...)
 }
 
 var _ = ssa.NaiveForm
